@@ -234,7 +234,7 @@ def coverage(res, tier):
         'distinct_outcomes': len(res.outcomes),
         'exhaustive': not res.capped,
         'bounds': [dict(family=s.get('family', 'skel'), size=s['size'], level=s['level'], cfg=s['cfg'], t0=s['t0'],
-                        mutations=s['mut'], restriction=s.get('kw', {})) for s in spaces(tier)],
+                        mutations=s['mut'], restriction={k: (v if k != 'paths' else [x.replace(LONG, '<300xL>') for x in v]) for k, v in s.get('kw', {}).items()}) for s in spaces(tier)],
         'rule': 'level 2 = full battery (7 kinds x 8 paths; 6 kinds inside cacheable functions) before every '
                 'statement and at the end of every function; probe family = one single query at one program point, '
                 'battery only at the end of the root. History: T0, build P, m, build P. Every answer compared with '
